@@ -477,6 +477,16 @@ func (c *Chip) doReadBinary(cmd CAPDU, viaSM bool, ex *Exchange) ([]byte, uint16
 	}
 	avail := len(file) - offset
 	n := min(cmd.Le, avail)
+	if odd {
+		// Le covers the whole DO'53': return as many data bytes as fit
+		for n > 0 && len(EncLen(n))+1+n > cmd.Le {
+			n--
+		}
+		if n == 0 {
+			ex.Action = "read-binary-odd le-too-small"
+			return nil, 0x6700
+		}
+	}
 	if c.B.MaxResp > 0 {
 		n = min(n, c.B.MaxResp)
 	}
